@@ -70,6 +70,37 @@ impl Encode for ShapeEncoder {
     fn encode(&self, w: &mut dyn EncWrite, _record: &log::Record) -> anyhow::Result<()> {
         let (t, i, shape) = TID.with(|x| x.borrow().clone());
         let fail_after = FAIL_AFTER.with(|x| *x.borrow());
+        if i % 2 == 1 {
+            // every other record reaches the writer through write_fmt: a Display implementation hands over the
+            // record one unit per write_str call (the thread gave it a shape of ones) - and, where the script says so,
+            // gives up with fmt::Error after some of them
+            struct Units<'a> {
+                t: u64,
+                i: u64,
+                n: usize,
+                fail_after: Option<usize>,
+                events: &'a Events,
+            }
+            impl<'a> std::fmt::Display for Units<'a> {
+                fn fmt(&self, f: &mut std::fmt::Formatter<'_>) -> std::fmt::Result {
+                    let unit = String::from_utf8(unit_bytes(self.t, self.i)).unwrap();
+                    for k in 0..=self.n {
+                        if self.fail_after == Some(k) {
+                            self.events.lock().unwrap().push(json!({"e": "encfail", "t": self.t, "chunks": k}));
+                            return Err(std::fmt::Error);
+                        }
+                        if k == self.n {
+                            break;
+                        }
+                        f.write_str(&unit)?;
+                        self.events.lock().unwrap().push(json!({"e": "chunk", "t": self.t, "n": 1}));
+                    }
+                    Ok(())
+                }
+            }
+            w.write_fmt(format_args!("{}", Units { t, i, n: shape.len(), fail_after, events: &self.events }))?;
+            return Ok(());
+        }
         for (k, n) in shape.iter().copied().chain(std::iter::once(u64::MAX)).enumerate() {
             if fail_after == Some(k) {
                 // FileAppender.tla, EncodeFail: logged here, while the appender's lock is still held
@@ -207,9 +238,12 @@ fn scenario(rng: &mut Rng, append_mode: bool, events: &Events, problems: &mut Ve
             for (k, shape) in plan.into_iter().enumerate() {
                 let i = k as u64 + 1;
                 let units: u64 = shape.iter().sum();
+                // (odd records go through write_fmt, one unit per call: their shape is that many ones)
+                let shape: Vec<u64> = if i % 2 == 1 { vec![1; units as usize] } else { shape };
+                let fail = fails[k].map(|f| f.min(shape.len()));
                 TID.with(|x| *x.borrow_mut() = (t, i, shape.clone()));
-                FAIL_AFTER.with(|x| *x.borrow_mut() = fails[k]);
-                let scripted = fails[k].is_some();
+                FAIL_AFTER.with(|x| *x.borrow_mut() = fail);
+                let scripted = fail.is_some();
                 ev.lock().unwrap().push(json!({"e": "begin", "t": t, "i": i, "shape": shape}));
                 let r = catch(|| a.append(&log::Record::builder().level(log::Level::Info).args(format_args!("x")).build()));
                 FAIL_AFTER.with(|x| *x.borrow_mut() = None);
